@@ -177,6 +177,10 @@ func C01(tier string) int {
 	}
 	// Phase (i): closure on key A alone.
 	ops1 := append(attSingles(0, E, true), attBatches(0, 1, tier == "thorough")...)
+	var legacy1 []SOp
+	for _, st := range [][2]uint64{{0, 0}, {0, 1}, {1, 2}} {
+		legacy1 = append(legacy1, SOp{Kind: "legacy-att", Ents: []Ent{{Key: 0, S: st[0], T: st[1]}}})
+	}
 	st1 := newStats()
 	r1, err := bfs.Explore(bfs.Config[SOp]{
 		NewWorker: func() (bfs.Worker[SOp], error) {
@@ -187,7 +191,11 @@ func C01(tier string) int {
 			return &c01Worker{w: w, keys: []int{0}}, nil
 		},
 		Ops: func(path []SOp) []SOp {
-			if hasRestart(path) || len(path) == 0 {
+			if len(path) == 0 {
+				// A history may begin with a record left by an older release (old record format).
+				return append(append([]SOp{}, ops1...), legacy1...)
+			}
+			if hasRestart(path) {
 				return ops1
 			}
 			return append(append([]SOp{}, ops1...), SOp{Kind: "restart"})
